@@ -486,7 +486,8 @@ fn exec_op(s: &mut State, ws: &[&str], out: &mut Out) -> String {
             let tab = s.t.as_mut().unwrap();
             let floor = s.r.max_ever.saturating_sub(W);
             let inside = n >= floor && n <= s.r.max_ever;
-            // keys whose only record is the value column, or whose history was re-seeded from it at block 0
+            // keys whose history was deleted as old (garbage collected): only the value column is left, or nothing, or a
+            // history re-seeded from the value column at block 0
             let reseeded: BTreeSet<String> = {
                 let (db, cdb, cache) = tab.verif_dump();
                 s.r.keys()
@@ -496,7 +497,8 @@ fn exec_op(s: &mut State, ws: &[&str], out: &mut Out) -> String {
                         let h = cache.iter().chain(cdb.iter()).find(|e| e.0 == kb).map(|e| show_hist_bytes(&e.1));
                         match h {
                             Some(h) => h.starts_with("0:") && !h.starts_with("0:-"),
-                            None => db.iter().any(|e| e.0 == kb),
+                            // no history row at all: it was deleted as old (with or without a surviving value row)
+                            None => { let _ = &db; true }
                         }
                     })
                     .collect()
